@@ -300,8 +300,9 @@ class SoftTTLCache(Entity):
             # Wait for backing store latency (simulating waiting for the refresh)
             yield self._backing_store.read_latency
             # Check if the refresh completed
-            if key in self._cache:
+            if key in self._cache and self._cache[key].is_valid(self.now, self._hard_ttl):
                 return self._cache[key].value
+            # The refresh did not replace the entry: never serve it past its hard TTL
             return None
 
         # Fetch from backing store (blocking)
